@@ -4,6 +4,7 @@ import (
 	"bytes"
 	"encoding/json"
 	"fmt"
+	"math"
 	"math/rand/v2"
 	"reflect"
 	"sort"
@@ -22,9 +23,16 @@ import (
 // ---------------------------------------------------------------------------
 // generator
 
+// c20Huge: bounds that do not survive a detour through float64 or a narrower integer.
+var c20Huge = []int{
+	1 << 53, 1<<53 + 1, 1<<53 - 1, 1<<53 + 2, 1 << 62, 1<<62 + 1, 1<<62 - 1, math.MaxInt64, math.MaxInt64 - 1,
+	1<<31 - 1, 1 << 31, 1<<32 + 1, 1<<63 - 1025,
+	-1, -(1 << 53), -(1<<53 + 1), -(1 << 62), -(1<<62 + 1), math.MinInt64, math.MinInt64 + 1,
+}
+
 func c20Kind(r *rand.Rand) *mocrelay.Nip11Kind {
 	k := func() int {
-		switch r.IntN(8) {
+		switch r.IntN(10) {
 		case 0:
 			return 0
 		case 1:
@@ -33,6 +41,8 @@ func c20Kind(r *rand.Rand) *mocrelay.Nip11Kind {
 			return r.IntN(10)
 		case 3:
 			return 1 << (16 + r.IntN(15))
+		case 4, 5:
+			return vk.Pick(r, c20Huge)
 		default:
 			return r.IntN(65536)
 		}
@@ -47,17 +57,30 @@ func c20Kind(r *rand.Rand) *mocrelay.Nip11Kind {
 			a, b = b, a
 		}
 		if a == b {
-			a++
+			if a == math.MaxInt64 {
+				b--
+			} else {
+				a++
+			}
 		}
 		return &mocrelay.Nip11Kind{From: a, To: b}
 	case 4: // pair with a zero end
-		a := 1 + k()
+		a := k()
+		if a == 0 {
+			a = 1
+		}
 		if r.IntN(2) == 0 {
 			return &mocrelay.Nip11Kind{From: 0, To: a}
 		}
 		return &mocrelay.Nip11Kind{From: a, To: 0}
-	case 5: // adjacent
+	case 5: // adjacent: the two ends differ by 1
 		a := k()
+		if a == math.MaxInt64 {
+			a--
+		}
+		if r.IntN(4) == 0 {
+			return &mocrelay.Nip11Kind{From: a + 1, To: a}
+		}
 		return &mocrelay.Nip11Kind{From: a, To: a + 1}
 	default: // ascending pair
 		a, b := k(), k()
@@ -65,7 +88,11 @@ func c20Kind(r *rand.Rand) *mocrelay.Nip11Kind {
 			a, b = b, a
 		}
 		if a == b {
-			b++
+			if b == math.MaxInt64 {
+				a--
+			} else {
+				b++
+			}
 		}
 		return &mocrelay.Nip11Kind{From: a, To: b}
 	}
@@ -234,8 +261,11 @@ func c20Doc(r *rand.Rand) *mocrelay.NIP11 {
 // forms of kind entries occur.
 func c20DocShape(d *mocrelay.NIP11) string {
 	var b strings.Builder
-	v := reflect.ValueOf(*d)
+	v := reflect.ValueOf(d).Elem()
 	for i := 0; i < v.NumField(); i++ {
+		if !v.Type().Field(i).IsExported() {
+			continue
+		}
 		if v.Field(i).IsZero() {
 			b.WriteByte('-')
 		} else {
@@ -266,8 +296,21 @@ func c20DocShape(d *mocrelay.NIP11) string {
 	return b.String() + "/" + strings.Join(fs, ",")
 }
 
+func c20IsHuge(v int) bool { return v >= 1<<53 || v <= -(1<<53) }
+
 func c20KindForm(k *mocrelay.Nip11Kind) string {
 	switch {
+	case c20IsHuge(k.From) || c20IsHuge(k.To):
+		switch d := k.To - k.From; {
+		case d == 0:
+			return "huge-single"
+		case d == 1 || d == -1:
+			return "huge-pair-adjacent"
+		default:
+			return "huge-pair"
+		}
+	case k.From < 0 || k.To < 0:
+		return "negative"
 	case k.From == k.To && k.From == 0:
 		return "single0"
 	case k.From == k.To:
@@ -302,6 +345,9 @@ func c20Diff(a, b reflect.Value, path string) string {
 		return c20Diff(a.Elem(), b.Elem(), path)
 	case reflect.Struct:
 		for i := 0; i < a.NumField(); i++ {
+			if !a.Type().Field(i).IsExported() {
+				continue // not part of the configuration a user can set
+			}
 			if d := c20Diff(a.Field(i), b.Field(i), path+"."+a.Type().Field(i).Name); d != "" {
 				return d
 			}
@@ -317,7 +363,25 @@ func c20Diff(a, b reflect.Value, path string) string {
 			}
 		}
 		return ""
+	case reflect.String:
+		if a.String() != b.String() {
+			return fmt.Sprintf("%s: %q vs %q", path, a.String(), b.String())
+		}
+		return ""
+	case reflect.Int, reflect.Int8, reflect.Int16, reflect.Int32, reflect.Int64:
+		if a.Int() != b.Int() {
+			return fmt.Sprintf("%s: %d vs %d", path, a.Int(), b.Int())
+		}
+		return ""
+	case reflect.Bool:
+		if a.Bool() != b.Bool() {
+			return fmt.Sprintf("%s: %v vs %v", path, a.Bool(), b.Bool())
+		}
+		return ""
 	default:
+		if !a.CanInterface() || !b.CanInterface() {
+			return ""
+		}
 		if !reflect.DeepEqual(a.Interface(), b.Interface()) {
 			return fmt.Sprintf("%s: %#v vs %#v", path, a.Interface(), b.Interface())
 		}
